@@ -61,10 +61,10 @@ KindsAt(z, t) == {z[i].kind : i \in Active(z, t)}
 
 \* ------------------------------------------------------------------ C13: generated VTIMEZONE
 \* window [w0, w1) in minutes; every observance complete, every onset inside the window
-WellFormedGen(z, w0, w1) ==
+WellFormedGen(z, w0, w1, slack) ==
     /\ Len(z) >= 1
     /\ \A i \in 1..Len(z) : z[i].local # {} /\ z[i].name # "" /\ z[i].kind \in {"STANDARD", "DAYLIGHT"}
-    /\ \A o \in Onsets(z) : o.t >= w0 - 1440 /\ o.t < w1 + 1440
+    /\ \A o \in Onsets(z) : o.t >= w0 - slack /\ o.t < w1 + slack
 
 \* ------------------------------------------------------------------ C13: the coarse-to-fine search of from_tzinfo
 \* src = set of transition ticks of a piecewise-constant source on 0..Horizon; Ladder = step sizes.
